@@ -102,7 +102,7 @@ func (c *Ctx) thorough() bool { return c.Tier == "thorough" }
 func (c *Ctx) RunOnce(cfg *RunCfg, setup func(r *Run)) *Run {
 	cfg.Root = c.Root
 	cfg.Sched = c.Sched
-	cfg.KeepTrace = c.Keep
+	cfg.KeepTrace = c.Keep || os.Getenv("VERIF_RUNLOG") != ""
 	var r *Run
 	InBubble(c.T, func() {
 		r = NewRun(cfg)
@@ -112,6 +112,18 @@ func (c *Ctx) RunOnce(cfg *RunCfg, setup func(r *Run)) *Run {
 		r.Execute()
 	})
 	c.Res.addRun(r)
+	if p := os.Getenv("VERIF_RUNLOG"); p != "" {
+		// experiments: one line per run (for bisecting a divergence between processes)
+		if f, err := os.OpenFile(p, os.O_APPEND|os.O_CREATE|os.O_WRONLY, 0644); err == nil {
+			fmt.Fprintf(f, "run steps=%d sched=%x class=%s jobs=%d plan=%d inc=%d crashes=%v\n", r.Steps, r.SchedHash, r.Class(), len(r.Jobs), len(c.Plan.Rec), r.Inc, cfg.Crashes)
+			if os.Getenv("VERIF_RUNLOG_TRACE") != "" {
+				for _, e := range r.Trace {
+					fmt.Fprintf(f, "  %d %s %s %s\n", e.Step, e.Task, e.Kind, e.Detail)
+				}
+			}
+			f.Close()
+		}
+	}
 	if ExportHook != nil {
 		ExportHook(r)
 	}
